@@ -511,7 +511,7 @@ func (c *CheckRun) finish(t0 time.Time) int {
 			// vacuity guard: no path of this harness ran to its end
 			hasNonFinding := false
 			for _, f := range r.Findings {
-				if f.Kind == "panic" || f.Kind == "assert" || f.Kind == "alloc" || f.Kind == "unwind" || f.Kind == "stdout" {
+				if f.Kind == "panic" || f.Kind == "assert" || f.Kind == "alloc" || f.Kind == "unwind" || f.Kind == "stdout" || f.Kind == "asm-oob" {
 					hasNonFinding = true
 				}
 			}
@@ -610,6 +610,11 @@ func (c *CheckRun) finish(t0 time.Time) int {
 			case "stdout":
 				expected = "bytes on fd 1"
 				ok = ro.Stdout > 0
+			case "asm-oob":
+				// an out-of-bounds access of the assembly cannot be observed natively (it stays inside the Go heap); it is
+				// reported when the same run also shows a wrong result natively (the harness's value assertion fails)
+				expected = "wrong result of the routine whose access left its slice"
+				ok = strings.HasPrefix(ro.Outcome, "assert-failed") || strings.HasPrefix(ro.Outcome, "crash") || strings.HasPrefix(ro.Outcome, "panic")
 			}
 			v := Violation{Property: id, Harness: r.Item.Fn, Pkg: r.Item.Pkg, Part: r.Item.Part, Tier: r.Item.Tier, Kind: f.Kind, Site: f.Site, Where: f.Where, Msg: f.Msg, Stack: f.Stack, Model: f.Model, Input: modelInputHex(f.Model), Expected: expected, Observed: ro.Outcome, Replay: ro}
 			if ok {
